@@ -421,6 +421,7 @@ def report(prop, spec, tier, runs, findings, kf, t0, extra, status_extra):
     fn_under_contract = set()
     clause_count = 0
     trusted, assumed_dep, not_verified, desugar, dropped = [], [], [], [], []
+    assumed_parser = []
     assumption_counts = {}
     samples = []
     cmds = []
@@ -481,6 +482,10 @@ def report(prop, spec, tier, runs, findings, kf, t0, extra, status_extra):
         trusted += ['%s: %s' % (U.name, t) for t in U.trusted_decl]
         assumed_dep += ['%s: %s' % (U.name, t) for t in U.assumed_dep]
         not_verified += ['%s: %s' % (U.name, t) for t in U.not_verified]
+        assumed_parser += ['%s: %s' % (U.name, t) for t in getattr(U, 'assumed_parser', [])]
+        for e_ in U.all_fn_entries():
+            if getattr(e_, 'auto_trusted', False):
+                not_verified.append('%s: %s:%s — %s' % (U.name, e_.file, e_.qualname, e_.note))
         desugar += ['%s %s' % (i, t) for i, t in U.desugar_log]
         dropped += sorted(U.dropped)
         for k, v in ur.assumptions.items():
@@ -557,7 +562,7 @@ def report(prop, spec, tier, runs, findings, kf, t0, extra, status_extra):
             solver_ms=round(solver_us / 1000.0, 1),
             per_function=per_fn,
             samples=samples or [dict(note='no contract sample')],
-            trusted=trusted, assumed_dep=assumed_dep, unverified_functions=not_verified,
+            trusted=trusted, assumed_dep=assumed_dep, assumed_parser=assumed_parser, unverified_functions=not_verified,
             desugarings=desugar, dropped=sorted(set(dropped)), assumption_scan=assumption_counts,
             bounded_obligations=bounded,
             known_findings=[f['id'] for f in findings if f['id'] in printed],
